@@ -119,7 +119,10 @@ pub fn run(tier: &str) -> i32 {
             deckpos[*c as usize] = i as u8;
         }
         // reference: the unscoped run of the real evaluator, cross-checked with M-deals
-        let full = match run_window(&cfg, &ranges, &deckpos, &[], 3).and_then(|(v, _)| canon(v)) {
+        let h0 = vlib::report::horizon("C04", "termination", format!("{} unscoped", cfg.key()), json!({"config": cfg.to_json(), "scopes": []}), 1176 * cfg.pi().max(1));
+        let full_run = run_window(&cfg, &ranges, &deckpos, &[], 3).and_then(|(v, _)| canon(v));
+        drop(h0);
+        let full = match full_run {
             Ok(v) => v,
             Err(e) => {
                 rep.violation(Violation { key: format!("{} unscoped", cfg.key()), sub: "unscoped-reference".into(), case: json!({"config": cfg.to_json(), "scopes": []}), expected: json!("runs to the end"), observed: json!({"panic": e}) });
@@ -148,6 +151,8 @@ pub fn run(tier: &str) -> i32 {
 
         // all windows, grouped by start position for the work queue
         let outs = par_map(1177, |from| {
+            let a0 = pos_of(from, &pl);
+            let _h = vlib::report::horizon("C04", "termination", format!("{} scopes starting at ({},{})", cfg.key(), a0.0, a0.1), json!({"config": cfg.to_json(), "scopes": [[a0.0, a0.1, 48, 49]]}), 1176 * 1177 * cfg.pi().max(1));
             let mut bad: Vec<Violation> = vec![];
             let mut calls = 0u64;
             let mut steps = 0u64;
